@@ -171,6 +171,18 @@ pub fn run(seed: u64, thorough: bool) {
                 sign_case(shape, &blob, &msg, &b, "bitflip", &sbase, sc, "");
             }
         }
+        // truncated inside (or right before) the MAC AND a cached node altered: a verifier of the MAC that
+        // compares only the bytes present would trust the altered cache
+        for keep in [0usize, 1, n / 2, n - 1] {
+            let cut = full - n + keep;
+            for _ in 0..(if thorough { 6 } else { 2 }) {
+                let mut b = valid[..cut].to_vec();
+                let pos = 4 + rng.below((full - n - 4) as u64) as usize;
+                b[pos] ^= 1 << rng.below(8);
+                keygen_case(shape, &sd, &b, "truncated_mac_node_altered", &base, kc, "");
+                sign_case(shape, &blob, &msg, &b, "truncated_mac_node_altered", &sbase, sc, "");
+            }
+        }
         // a buffer made for another seed
         let mut sd2 = rng.bytes(n);
         sd2.resize(32, 0);
